@@ -54,5 +54,6 @@ TNext == TAddBegin \/ TPop \/ TAddFinish \/ TLockBegin \/ TLockFinish
 TSpec == TInit /\ [][TNext]_tvars
 
 Reached == IF l = Len(Ev) + 1 THEN TLCSet(1, TLCGet(1) \cup {tid}) ELSE TRUE
-Post == PrintT(<<"REJECTED", (1..Len(Traces)) \ TLCGet(1)>>)
+\* (a TLA+ tuple would be pretty-printed over several lines when the set is long: print JSON)
+Post == PrintT(ToJson([k |-> "rejected", n |-> Len(Traces), ids |-> (1..Len(Traces)) \ TLCGet(1)]))
 =============================================================================
